@@ -547,6 +547,45 @@ func checkShardIDRejections(c *Ctx, res *report.Result, rule string) {
 			if !ok {
 				continue
 			}
+			// a module helper that judges the shard id (isValidShardID(x.ShardID)): it may compare the id with 0 / 1
+			// only - any larger constant is an upper bound that some LCM exceeds
+			cv := iff.Cond
+			if un, isUn := cv.(*ssa.UnOp); isUn && un.Op == token.NOT {
+				cv = un.X
+			}
+			if hc, isCall := cv.(*ssa.Call); isCall {
+				h := flow.StaticCallee(&hc.Call)
+				if h != nil && h.Pkg != nil && strings.HasPrefix(h.Pkg.Pkg.Path(), modPath) && len(h.Blocks) > 0 {
+					for ai, a := range hc.Call.Args {
+						if pa, _ := flow.FieldPath(a); !strings.HasSuffix(pa, ".ShardID") || ai >= len(h.Params) {
+							continue
+						}
+						n++
+						bad := ""
+						for _, hb := range h.Blocks {
+							for _, hi := range hb.Instrs {
+								hbo, isB := hi.(*ssa.BinOp)
+								if !isB {
+									continue
+								}
+								var k int64
+								var isK bool
+								if flow.Strip(hbo.X) == ssa.Value(h.Params[ai]) {
+									k, isK = flow.ConstInt(hbo.Y)
+								} else if flow.Strip(hbo.Y) == ssa.Value(h.Params[ai]) {
+									k, isK = flow.ConstInt(hbo.X)
+								}
+								if isK && k > 1 {
+									bad = fmt.Sprintf("%s compares the shard id with the constant %d", shortFn(h), k)
+								}
+							}
+						}
+						res.Check(bad == "", rule, fmt.Sprintf("StreamWorkflowReplicationMessages: shard-id rejection #%d refuses only ids outside 1..count", n), instrPos(c.Prog, iff), "the helper tests the id against 0 / 1 only",
+							"the stream is refused by a helper that bounds the shard id from above by a constant ("+bad+"): in LCM mode the server shard id in the metadata runs up to the least common multiple of the two counts, which exceeds any single cluster's maximum - every stream for a shard above the constant is refused on both servers and never replicates")
+					}
+				}
+				continue
+			}
 			bo, ok := iff.Cond.(*ssa.BinOp)
 			if !ok {
 				continue
